@@ -8,6 +8,8 @@ use std::path::PathBuf;
 use std::process::{Command, Stdio};
 
 pub struct Campaign {
+    /// names the work directory (harness/target/fuzzwork-<name>)
+    pub name: &'static str,
     pub runs_per_job: u64,
     pub jobs: u32,
     pub timeout_s: u32,
@@ -76,7 +78,7 @@ pub fn run(c: &Campaign, seeds: &[StrCase]) -> Result<(Vec<Found>, u64), String>
     if !bin.exists() {
         return Err(format!("fuzz binary not found at {bin:?}"));
     }
-    let work: PathBuf = hdir.join("target").join("fuzzwork");
+    let work: PathBuf = hdir.join("target").join(format!("fuzzwork-{}", c.name));
     let _ = std::fs::remove_dir_all(&work);
     let mut children = vec![];
     for j in 0..c.jobs {
